@@ -264,10 +264,16 @@ def strings_for(tier, seed, part, nparts):
 def shard(i, n, tier, seed, rec, hb):
     pvl = common.import_pvl()
     T = triples(pvl)
-    for src, s in strings_for(tier, seed, i, n):
+    order = list(T.items())
+    for k, (src, s) in enumerate(strings_for(tier, seed, i, n)):
         hb.beat()
         rec.count(f"strings[{src}]")
-        for dialect, (g, d, enc) in T.items():
+        # the dialects take turns going first: state shared between the
+        # classes of one process must not leak from one dialect to another
+        rot = order[k % len(order):] + order[:k % len(order)]
+        if k % 2:
+            rot.reverse()
+        for dialect, (g, d, enc) in rot:
             cls = check_string(rec, pvl, dialect, g, d, enc, s)
             rec.case((dialect, s), not IDENT.match(s),
                      sample={"dialect": dialect, "string": s, "class": cls}
